@@ -6,13 +6,13 @@ WT=$1; K=$2; shift 2
 OUT=$WT/_out/$K
 cd $WT || exit 2
 git checkout -q -- . ; git apply $OUT/patch.diff || { echo "PATCH DOES NOT APPLY"; exit 2; }
-make -j8 > /tmp/mut_make.log 2>&1 || { echo "BUILD FAILS"; tail -5 /tmp/mut_make.log; }
+make -j8 > $WT/_out/make.log 2>&1 || { echo "BUILD FAILS"; tail -5 $WT/_out/make.log; }
 TESTS=$(unshare -n sh -c 'ip link set lo up && make -j8 check' 2>&1 | grep -E '^# (PASS|FAIL|ERROR)' | paste -sd' ')
 echo "tests with change: $TESTS"
 DEMO=$(ls $OUT/demo.* | head -1)
-run_demo() { if [[ $DEMO == *.py ]]; then PM_ROOT=$WT timeout 300 python3 $DEMO > /tmp/mut_demo.log 2>&1; else PM_ROOT=$WT timeout 300 bash $DEMO > /tmp/mut_demo.log 2>&1; fi; echo $?; }
+run_demo() { if [[ $DEMO == *.py ]]; then PM_ROOT=$WT timeout 300 python3 $DEMO > $WT/_out/demo.log 2>&1; else PM_ROOT=$WT timeout 300 bash $DEMO > $WT/_out/demo.log 2>&1; fi; echo $?; }
 echo "demo with change: exit $(run_demo)"
 cd /verif
 for p in "$@"; do echo "--- check $p"; VERIF_REPO=$WT timeout 900 ./check $p quick 2>&1 | grep -E 'VIOLATION|KNOWN|^OK' | head -5; done
-cd $WT; git checkout -q -- . ; make -j8 > /tmp/mut_make.log 2>&1
+cd $WT; git checkout -q -- . ; make -j8 > $WT/_out/make.log 2>&1
 echo "demo without change: exit $(run_demo)"
